@@ -61,6 +61,83 @@ inductive WEv
   | flush
   deriving DecidableEq, Repr
 
+/-! ### `container/list` and `map[string]*list.Element` as used by route_cache.go
+
+  A list element has an identity (the pointer in Go); `*list.Element` and `*cacheNode` values are `Option Nat`
+  (`none` = nil).  Operations on a nil or foreign element do nothing (in Go they would panic or corrupt the
+  list; `cachedRoutes` never does that — part of the refinement proof in Tie/Cache.lean). -/
+
+structure LElem (ρ : Type) where
+  id : Nat
+  key : Bytes
+  val : Option ρ
+  deriving Repr
+
+/-- front first; `next` = the identity the next pushed element gets -/
+structure LList (ρ : Type) where
+  items : List (LElem ρ) := []
+  next : Nat := 0
+  deriving Repr
+
+instance {ρ : Type} : Inhabited (LList ρ) := ⟨{}⟩
+
+namespace LList
+variable {ρ : Type}
+
+def len (l : LList ρ) : Int := l.items.length
+
+def find (l : LList ρ) (e : Option Nat) : Option (LElem ρ) :=
+  match e with
+  | none => none
+  | some i => l.items.find? (fun x => x.id == i)
+
+def pushFront (l : LList ρ) (kv : Bytes × Option ρ) : LList ρ × Option Nat :=
+  ({ items := ⟨l.next, kv.1, kv.2⟩ :: l.items, next := l.next + 1 }, some l.next)
+
+def remove (l : LList ρ) (e : Option Nat) : LList ρ :=
+  match e with
+  | none => l
+  | some i => { l with items := l.items.filter (fun x => x.id != i) }
+
+def moveToFront (l : LList ρ) (e : Option Nat) : LList ρ :=
+  match l.find e with
+  | none => l
+  | some x => { l with items := x :: (l.items.filter (fun y => y.id != x.id)) }
+
+def back (l : LList ρ) : Option Nat := l.items.getLast?.map (·.id)
+
+def setVal (l : LList ρ) (e : Option Nat) (v : Option ρ) : LList ρ :=
+  match e with
+  | none => l
+  | some i => { l with items := l.items.map (fun x => if x.id == i then { x with val := v } else x) }
+
+def valOf (l : LList ρ) (e : Option Nat) : Option ρ := (l.find e).bind (·.val)
+
+def keyOf (l : LList ρ) (e : Option Nat) : Bytes := ((l.find e).map (·.key)).getD []
+
+end LList
+
+/-- `map[string]*list.Element` as an association list (first binding of a key is the live one) -/
+structure HMap where
+  items : List (Bytes × Nat) := []
+  deriving Repr
+
+instance : Inhabited HMap := ⟨{}⟩
+
+namespace HMap
+
+def get (m : HMap) (k : Bytes) : Option Nat := (m.items.find? (fun x => x.1 == k)).map (·.2)
+
+def del (m : HMap) (k : Bytes) : HMap := { items := m.items.filter (fun x => x.1 != k) }
+
+/-- `m[k] = e` (storing a nil element does not happen in route_cache.go; it is modelled as a deletion) -/
+def set (m : HMap) (k : Bytes) (e : Option Nat) : HMap :=
+  match e with
+  | none => m.del k
+  | some i => { items := (k, i) :: (m.del k).items }
+
+end HMap
+
 /-- what `Router.QuickMatch` calls, over an abstract router state `σ` (the route cache may change when a
     dynamic route is matched), abstract routes `ρ` and parameter maps `π` -/
 structure QMEnv (σ ρ π : Type) where
